@@ -258,6 +258,49 @@ def flag_equivalence(case, rng, kp0):
     return True, None
 
 
+def bare_stage_equivalence(rng):
+    """every lifting-function class on its own (no pipeline in front of it), on integer-typed and single-precision
+    data: transform / inverse_transform give the same dtype, shape and bits under both flag values"""
+    bad = []
+    n = 0
+    specs = [('poly', 2, False), ('bilinear',), ('const',), ('delay', 1, 1), ('rbf', 1, 2), ('kernel', 1, 3),
+             ('sk', 0), ('sk', 2), ('angle', (1, 0), False)]
+    for spec in specs:
+        for dt in (np.int64, np.int16, np.float32, np.float64):
+            for ep in (False, True):
+                n += 1
+                base = np.round(2 * rng.normal(size=(6, 3)))
+                if ep:
+                    base = np.hstack((np.array([[0.], [0.], [0.], [1.], [1.], [1.]]), base))
+                lf = direct.build_real(spec)
+                try:
+                    lf.fit(base.astype(float), n_inputs=1, episode_feature=ep)
+                except Exception:  # noqa
+                    continue
+                X = base.astype(dt)
+                out = {}
+                for flag in (False, True):
+                    with pykoop.config_context(skip_validation=flag):
+                        try:
+                            t = lf.transform(X)
+                            out[flag] = (t, lf.inverse_transform(t))
+                        except Exception as e:  # noqa
+                            out[flag] = ('raised', type(e).__name__)
+                if isinstance(out[False], tuple) and out[False] and isinstance(out[False][0], str):
+                    continue                  # rejected by validation: not a valid input
+                if isinstance(out[True][0], str):
+                    bad.append(dict(what='a lifting function raises with skip_validation=True although it succeeds with validation',
+                                    stage=repr(lf), dtype=str(np.dtype(dt))))
+                    continue
+                for nm, a, b in (('transform', out[False][0], out[True][0]), ('inverse_transform', out[False][1], out[True][1])):
+                    if a.shape != b.shape or a.dtype != b.dtype or not np.array_equal(a, b, equal_nan=True):
+                        bad.append(dict(what=f'{nm} of a bare lifting function differs between skip_validation=False and True',
+                                        stage=repr(lf), input_dtype=str(np.dtype(dt)), episode_feature=ep,
+                                        dtype_validating=str(a.dtype), dtype_skipping=str(b.dtype), X=X.tolist()))
+                        break
+    return n, bad
+
+
 def run(res, tier):
     rng = np.random.default_rng(common.seed())
     proved = driver.proof_step(res, PID)
@@ -274,6 +317,9 @@ def run(res, tier):
     ev, bad2, kn, s2 = _dp.run_direct(
         rng, n_dir, [('flag_equivalence', lambda c, r, kp: flag_equivalence(c, r, kp))],
         gen_kw=dict(max_len=3, max_depth=2, max_eps=4))
+    n_bare, bad_bare = bare_stage_equivalence(rng)
+    bad2 = bad2 + bad_bare
+    ev += n_bare
     res.coverage.update(
         evaluations=n_scripts + ev, distinct_nontrivial=n_scripts + ev,
         traces_validated_against_impl=n_scripts,
